@@ -21,6 +21,8 @@ UNIT_CATS = ('convert-from-unit', 'sum-mix', 'add-units', 'to-storage', 'from-st
 
 
 def run(ctx):
+    from .configtime import refusals_not_swallowed as _no_swallow
+    _no_swallow(ctx, 'C11.R1')
     from .configtime import refusals_not_rounded_for_display as _gate_digits
     _gate_digits(ctx, 'C11.R2', ('Container._self_add', 'Container.fill_to', 'Container.dilute'))
     # contents are keyed by Substance objects: the key laws this property's bookkeeping relies on
